@@ -12,6 +12,7 @@ from .. import configs
 from ..core import ChoiceSource, HarnessError, Violation, enumerate_scripts, script_hash
 from ..observe import algo_digest
 from ..seams import ExpansionRecorder
+from .. import world
 from ..world import Stats, _jsonable, seam
 
 ID = "C14"
@@ -204,6 +205,8 @@ def _inter_task(task):
                 t = inst[5] // 2 + 1
 
                 def do_pull():
+                    if world._GUARD:
+                        world._GUARD.reset()
                     x = inst[0].pull(t)
                     x = None if x is None else [float(v) for v in x]
                     want = _solo_point(cache, inst[1], inst[2], inst[4])
